@@ -324,6 +324,16 @@ func genRdCases(c *Ctx) []json.RawMessage {
 			}
 		}
 	}
+	// tiny caller buffers for the bytes-backed reader (1..3 bytes, capacity = length and one more)
+	for _, S := range []int{1, 2, 3} {
+		for _, spare := range []int{0, 1} {
+			for _, sq := range [][]RdOp{{{"next", 1}, {"next", 1}}, {{"peek", S}, {"next", S}, {"next", 1}}, {{"readbinary", S}, {"release", 0}, {"next", 1}},
+				{{"skip", 1}, {"peek", 1}}, {{"next", S + 1}}, {{"readbinary", S + 1}, {"next", 1}}, {{"next", 0}, {"next", S}, {"release", 0}}} {
+				seed++
+				add(RdCase{Fl: "bytes", S: S, Cap: S + spare, Fk: "EOF", Seed: seed % 251, Ops: sq})
+			}
+		}
+	}
 	// small operands under 1-byte and all-empty policies (each read is one event)
 	small := []RdOp{{"next", 3}, {"peek", 120}, {"skip", 101}, {"readbinary", 150}, {"next", 99}, {"next", 100}, {"release", 0}, {"readbinary", 7}}
 	for _, pol := range [][]int{{1}, {0}, {1, 0}, {0, 0, 1}, {2, 1, 0, 7}} {
